@@ -40,6 +40,8 @@ func init() {
 				Run: ruleC19f},
 			{ID: "C19.h", Template: "T-FRESH", Required: true, Run: rulePooledBytesClean,
 				Doc: "No request leaves bytes behind for the next: pooled byte containers are emptied before Put or after Get (same obligations as C16.g)."},
+			{ID: "C19.l", Template: "T-FRESH", Required: true, Run: ruleC06c,
+				Doc: "A FilterChain is an object of one request (same obligations as C06.c): the effect rules treat stores into a FilterChain as request-local, which holds only while every chain is a local object of the function that builds it. A chain composed once at Build time and shared by all requests of the route makes its Index a counter two requests in flight both advance."},
 			{ID: "C19.k", Template: "T-FRESH", Required: true, Run: ruleC04b,
 				Doc: "The path parameter map a request gets is made for that request (same obligations as C04.b): a package-level 'empty' map handed to every request of a parameter-less route carries what one request's filter or function wrote into it over to the next."},
 			{ID: "C19.j", Template: "T-GUARD", Required: true, Run: ruleTraceLoggerGuarded,
